@@ -33,7 +33,7 @@ func init() {
 			"non-trivial = a value whose encoding was produced, decoded and compared (distinct by hash of kind + encoding); every strict prefix (<= 2 KiB) or a sample of prefixes is then offered to unmarshal; " +
 			"lifetime legs with the same round-trip oracle: batches of 2..8 values marshalled first (returned slices kept, not copied, hashed) and decoded afterwards, the same value marshalled twice, " +
 			"and 6 goroutines doing marshal / Gosched / unmarshal / compare concurrently",
-		MinNontrivial:         3000,
+		MinNontrivial:         12000,
 		MinNontrivialThorough: 150000,
 		Assumptions: []string{
 			"the generator stays inside the wire format's domain (vector bounds of RFC 5246/8446/5077/6066/6962/7301); fields never carried on the wire (clientHello.sctEnabled/unknownExtensions, serverKeyExchange.digest, sessionState.usedOldKey) are left zero",
